@@ -7,7 +7,8 @@
 SEED=$1; PID=$2; shift 2
 SCR=$(mktemp -d /tmp/seedrun.XXXXXX)
 mkdir -p $SCR/repo && cp -r /repo/src /repo/tests $SCR/repo/ 2>/dev/null
-( cd $SCR/repo && git init -q . && git apply /verif/seeded/$SEED/patch.diff ) || { echo "patch failed"; rm -rf $SCR; exit 9; }
+PATCH=/verif/seeded/$SEED/patch.diff; [ -f /verif/seeded/$SEED/patch_on_fixed_tree.diff ] && PATCH=/verif/seeded/$SEED/patch_on_fixed_tree.diff
+( cd $SCR/repo && git init -q . && git apply $PATCH ) || { echo "patch failed"; rm -rf $SCR; exit 9; }
 cd /verif && VERIF_REPO=$SCR/repo ./check $PID --tier quick "$@" 2>&1 | grep -E "^\[|VIOLATION|KNOWN|CHECKER|UNDEC|failed obligation" | head -${LINES_MAX:-14}
 echo "exit=${PIPESTATUS[0]}"
 rm -rf $SCR
